@@ -1012,7 +1012,7 @@ def wrap(tier, seed, ci, nc, count=600):
             own = tuple('%s%d' % (n, i) for n in rng.choice(owns))
             own_list.append(own)
         fps = rng.choice(funcs)
-        placement = rng.choice(['function', 'function_peek', 'function_forged', 'method', 'staticmethod'])
+        placement = rng.choice(['function', 'function_peek', 'function_forged', 'function_wraps', 'method', 'staticmethod'])
         if any(p[1] == 'po' for p in fps) and placement == 'method':
             placement = 'function'
         yield ('rt:wrap', kind, tuple(own_list), fps, placement)
